@@ -2456,7 +2456,7 @@ class Converter:
             for record in self.records
             if any(prefix in prefixes for prefix in record._all_prefixes)
         ]
-        return Converter(records)
+        return Converter(records, delimiter=self.delimiter)
 
 
 def _eq(a: str, b: str, case_sensitive: bool) -> bool:
@@ -2536,7 +2536,7 @@ def chain(converters: Sequence[Converter], *, case_sensitive: bool = True) -> Co
     """
     if not converters:
         raise ValueError
-    rv = Converter([])
+    rv = Converter([], delimiter=converters[0].delimiter)
     for converter in converters:
         for record in converter.records:
             # copy, since merging mutates records in place
